@@ -581,11 +581,16 @@ impl<'s, I: Interner, Solver: SolveDatabase<I>> Fulfill<'s, I, Solver> {
 
             while let Some(obligation) = self.obligations.pop() {
                 if let Obligation::Prove(goal) = obligation {
+                    // The obligation was ambiguous when it was last proved. It can
+                    // turn out to have no solution now if that earlier answer was
+                    // the placeholder of an iteration cut short by `should_continue`
+                    // and solving is allowed to continue again: then the goal as a
+                    // whole has no solution.
                     let PositiveSolution {
                         free_vars,
                         universes,
                         solution,
-                    } = self.prove(goal, minimums, should_continue.clone()).unwrap();
+                    } = self.prove(goal, minimums, should_continue.clone())?;
                     if let Some(constrained_subst) =
                         solution.constrained_subst(self.solver.interner())
                     {
